@@ -87,7 +87,7 @@ def _read_block(lines, i):
     """lines[i] is the `//@extract` line; returns (spec dict, next index)"""
     head = shlex.split(lines[i][len("//@extract"):].strip())
     spec = dict(file=head[0], item=head[1], kw=_parse_kv(head[2:]), props=[], attrs=[], sig=None, rules=[],
-                requires=[], ensures=[], loops={}, afterloops={}, entry=[], anchors=[], line=i + 1)
+                requires=[], ensures=[], loops={}, entry=[], anchors=[], line=i + 1)
     cur = None
     i += 1
     while i < len(lines):
@@ -98,7 +98,7 @@ def _read_block(lines, i):
             raise Undecided("template: line %d inside //@extract block is not a //@ line" % (i + 1))
         body = ln.lstrip()[3:]
         st = body.strip()
-        m = re.match(r"^ (props|attr|sig|rule|requires|ensures|entry|loop|before|after-loop|after)\b(.*?):\s?(.*)$", body)
+        m = re.match(r"^ (props|attr|sig|rule|requires|ensures|entry|loop-start|loop-end|before-loop|after-loop|before-call|after-call|loop|before|after)\b(.*?):\s?(.*)$", body)
         if m and not body.startswith("   "):
             key, arg, rest = m.group(1), m.group(2).strip(), m.group(3)
             if key == "props":
@@ -120,9 +120,17 @@ def _read_block(lines, i):
                 opts = _parse_kv(a[1:])
                 cur = []
                 spec["loops"][n] = dict(lines=cur, opts=opts)
-            elif key == "after-loop":
+            elif key in ("after-loop", "before-loop", "loop-start", "loop-end"):
                 cur = []
-                spec["afterloops"][int(arg.split()[0])] = cur
+                spec["anchors"].append(dict(where=key, n=int(arg.split()[0]), lines=cur))
+            elif key in ("before-call", "after-call"):
+                a = arg.split()
+                nth = 1
+                for x in a[1:]:
+                    if x.startswith("#"):
+                        nth = int(x[1:])
+                cur = []
+                spec["anchors"].append(dict(where=key, call=a[0], nth=nth, lines=cur))
             elif key in ("before", "after"):
                 mm = re.match(r"^/(.*)/\s*(#(\d+))?$", arg)
                 if not mm:
@@ -211,6 +219,93 @@ def _loops(s):
                 raise Undecided("loop without body")
             res.append((p, q))
     return res
+
+
+def _enclosing_block(s, p):
+    """code position of the `{` of the innermost brace block containing code position p (or -1)"""
+    depth = 0
+    q = p - 1
+    while q >= 0:
+        if s.kind(q) == "close":
+            q = s.closer(q) - 1
+            continue
+        if s.kind(q) == "open":
+            if s.txt(q) == "{":
+                return q
+        q -= 1
+    return -1
+
+
+def _stmt_start(s, p):
+    """first code position of the statement (at block level) that contains code position p"""
+    blk = _enclosing_block(s, p)
+    # a `{` that belongs to a struct literal / match arm value / closure is not a statement block: keep climbing
+    q = p
+    start = blk + 1
+    k = blk + 1
+    while k <= p:
+        if s.kind(k) == "open":
+            c = s.closer(k)
+            if c >= p:
+                k += 1
+                continue
+            # a closed `{...}` group at block level ends a block-like statement unless followed by else / . / ?
+            if s.txt(k) == "{" and not (s.is_(c + 1, "else") or s.is_(c + 1, ".") or s.is_(c + 1, "?") or s.is_(c + 1, ";") or s.is_(c + 1, ",") or s.is_(c + 1, ")")):
+                first = s.txt(start)
+                if first in ("if", "match", "while", "for", "loop", "unsafe", "{") or k == start:
+                    start = c + 1
+            k = c + 1
+            continue
+        if s.txt(k) == ";":
+            start = k + 1
+        k += 1
+    if blk >= 0 and _is_expr_brace(s, blk):
+        return _stmt_start(s, blk)
+    return start
+
+
+def _is_expr_brace(s, blk):
+    """is the `{` at blk the body of a match / struct literal rather than a statement block?  (then anchors
+    climb to the enclosing statement)"""
+    # match arms: `match e {` ; struct literal: `Name {` preceded by ident and followed by `ident :`
+    k = blk - 1
+    depth_tokens = []
+    while k >= 0 and s.txt(k) not in (";", "{", "}"):
+        depth_tokens.append(s.txt(k))
+        if s.kind(k) == "close":
+            k = s.closer(k)
+        k -= 1
+    toks = list(reversed(depth_tokens))
+    if "match" in toks and not any(x in toks for x in ("=>",)):
+        return True
+    if toks and toks[-1] == "=>":
+        return True
+    return False
+
+
+def _stmt_end(s, st):
+    """last code position of the statement starting at code position st"""
+    k = st
+    first = s.txt(st)
+    while k < len(s):
+        if s.kind(k) == "open":
+            c = s.closer(k)
+            if s.txt(k) == "{" and first in ("if", "match", "while", "for", "loop", "unsafe", "{"):
+                if s.is_(c + 1, "else"):
+                    k = c + 1
+                    continue
+                if s.is_(c + 1, ";"):
+                    return c + 1
+                if not (s.is_(c + 1, ".") or s.is_(c + 1, "?")):
+                    return c
+            k = c + 1
+            continue
+        if s.kind(k) == "close":
+            return k - 1
+        if s.txt(k) == ";":
+            return k
+        k += 1
+    return len(s) - 1
 
 
 def assemble(template_path, repo, verif_root, canary=False):
@@ -318,39 +413,64 @@ def _emit_fn(out, spec, repo, canary):
     for k, v in hits.items():
         out.rule_hits[k] = out.rule_hits.get(k, 0) + v
 
-    # loop contracts: insert before the body brace of the n-th loop (after rewriting)
-    if spec["loops"] or spec["afterloops"]:
-        s = Src(body)
-        loops = _loops(s)
-        edits = []
-        for n in spec["afterloops"]:
-            if n > len(loops):
-                raise Undecided("anchor lost: %s has %d loops, contract addresses loop %d" % (name, len(loops), n))
-            edits.append((s.end(s.closer(loops[n - 1][1])), "\n/*@AFTERLOOP %d@*/\n" % n))
-        for n, lp in spec["loops"].items():
-            if n > len(loops):
-                raise Undecided("anchor lost: %s has %d loops, contract addresses loop %d" % (name, len(loops), n))
-            kwpos, brace = loops[n - 1]
-            marker = "\n/*@LOOP %d@*/\n" % n
-            edits.append((s.start(brace), marker))
-            if lp["opts"].get("binder") and s.txt(kwpos) == "for":
-                q = kwpos
-                while not s.is_(q, "in"):
-                    q += 1
-                edits.append((s.end(q), " %s:" % lp["opts"]["binder"]))
-        for off, txt in sorted(edits, reverse=True):
-            body = body[:off] + txt + body[off:]
+    # ---- anchors: every hint / loop contract is attached at a character offset of the rewritten body ----
+    s = Src(body)
+    loops = _loops(s)
+    edits = []      # (offset, order, text)
+    hints = []      # hint line lists, addressed by marker index
 
-    blines = body.split("\n")
-    # anchors
-    inserts = {}
+    def need_loop(n):
+        if n > len(loops):
+            raise Undecided("anchor lost: %s has %d loops, contract addresses loop %d" % (name, len(loops), n))
+        return loops[n - 1]
+
+    for n, lp in spec["loops"].items():
+        kwpos, brace = need_loop(n)
+        edits.append((s.start(brace), 1, "\n/*@LOOP %d@*/\n" % n))
+        if lp["opts"].get("binder") and s.txt(kwpos) == "for":
+            q = kwpos
+            while not s.is_(q, "in"):
+                q += 1
+            edits.append((s.end(q), 0, " %s:" % lp["opts"]["binder"]))
+    blines0 = body.split("\n")
+    line_off = [0]
+    for l in blines0:
+        line_off.append(line_off[-1] + len(l) + 1)
     for a in spec["anchors"]:
-        rx = re.compile(a["regex"])
-        hitsl = [k for k, l in enumerate(blines) if rx.search(l) and not l.strip().startswith("//")]
-        if len(hitsl) < a["nth"]:
-            raise Undecided("anchor lost: /%s/ #%d not found in body of %s" % (a["regex"], a["nth"], name))
-        k = hitsl[a["nth"] - 1]
-        inserts.setdefault((k, a["where"]), []).extend(a["lines"])
+        hints.append(a["lines"])
+        mk = "\n/*@H %d@*/\n" % (len(hints) - 1)
+        w = a["where"]
+        if w in ("before", "after"):
+            rx = re.compile(a["regex"])
+            hitsl = [k for k, l in enumerate(blines0) if rx.search(l) and not l.strip().startswith("//")]
+            if len(hitsl) < a["nth"]:
+                raise Undecided("anchor lost: /%s/ #%d not found in body of %s" % (a["regex"], a["nth"], name))
+            k = hitsl[a["nth"] - 1]
+            off = line_off[k] if w == "before" else min(line_off[k + 1] - 1, len(body))
+            edits.append((off, 2, mk))
+        elif w in ("loop-start", "loop-end", "before-loop", "after-loop"):
+            kwpos, brace = need_loop(a["n"])
+            if w == "loop-start":
+                off = s.end(brace)
+            elif w == "loop-end":
+                off = s.start(s.closer(brace))
+            elif w == "before-loop":
+                off = s.start(_stmt_start(s, kwpos))
+            else:
+                off = s.end(s.closer(brace))
+            edits.append((off, 2, mk))
+        elif w in ("before-call", "after-call"):
+            pos = [p for p in range(len(s) - 1) if s.txt(p) == a["call"] and s.kind(p) == "ident" and s.is_(p + 1, "(")
+                   and not s.is_(p - 1, "fn")]
+            if len(pos) < a["nth"]:
+                raise Undecided("anchor lost: call %s #%d not found in body of %s" % (a["call"], a["nth"], name))
+            p0 = pos[a["nth"] - 1]
+            st = _stmt_start(s, p0)
+            off = s.start(st) if w == "before-call" else s.end(_stmt_end(s, st))
+            edits.append((off, 2, mk))
+    for off, _, txt in sorted(edits, key=lambda e: (e[0], e[1]), reverse=True):
+        body = body[:off] + txt + body[off:]
+    blines = body.split("\n")
 
     def hint(name, lines):
         bare = [l for l in lines if l.strip().startswith("let ghost") or l.strip().startswith("let tracked")]
@@ -376,20 +496,18 @@ def _emit_fn(out, spec, repo, canary):
         out.emit("    {", Origin(name, "body"))
         if spec["entry"]:
             hint(name, spec["entry"])
+        src_line = f.body_line
         for k, l in enumerate(blines):
-            if (k, "before") in inserts:
-                hint(name, inserts[(k, "before")])
             m = re.match(r"^/\*@LOOP (\d+)@\*/$", l.strip())
-            m2 = re.match(r"^/\*@AFTERLOOP (\d+)@\*/$", l.strip())
+            m2 = re.match(r"^/\*@H (\d+)@\*/$", l.strip())
             if m:
                 lp = spec["loops"][int(m.group(1))]
                 _emit_clauses(out, name, "invariant", lp["lines"], props, clauses)
             elif m2:
-                hint(name, spec["afterloops"][int(m2.group(1))])
+                hint(name, hints[int(m2.group(1))])
             else:
-                out.emit(l, Origin(name, "body", src="%s:%d" % (f.file, f.body_line + k)))
-            if (k, "after") in inserts:
-                hint(name, inserts[(k, "after")])
+                out.emit(l, Origin(name, "body", src="%s:%d" % (f.file, src_line)))
+                src_line += 1
         out.emit("    }", Origin(name, "body"))
 
     render(name, sig, list(spec["ensures"]), clauses)
